@@ -105,6 +105,7 @@ mod user_id;
 mod public_key_parser;
 mod secret_key_parser;
 
+pub(crate) use self::header::MAX_PARTIAL_LEN;
 pub use self::{
     compressed_data::*,
     gnupg_aead::{Config as GnupgAeadDataConfig, GnupgAeadData},
